@@ -21,6 +21,7 @@ from harness import core
 LIVE_MODEL = "str"  # which Lean function mirrors the working tree: "str" (pinned commit) or "comp" (after fix)
 
 META = {
+    "engine": "Mount",
     "category": "proof",
     "design_ref": "§6 C38, §5.9",
     "technique": "Lean 4 theorem (first match in a length-sorted table = longest component prefix) + differential correspondence",
